@@ -128,9 +128,10 @@ def locals_assigned(f, pred):
     """names of the locals of f that are assigned (plain `name = value`) a value satisfying pred(value)"""
     out = []
     for n in walk_no_nested(f.node):
-        if isinstance(n, ast.Assign) and len(n.targets) == 1 and isinstance(n.targets[0], ast.Name) and pred(n.value):
-            if n.targets[0].id not in out:
-                out.append(n.targets[0].id)
+        if isinstance(n, ast.Assign) and pred(n.value):
+            for t in n.targets:
+                if isinstance(t, ast.Name) and t.id not in out:
+                    out.append(t.id)
     return out
 
 
